@@ -164,3 +164,19 @@ Theorem C09_map2_nk_stale_merge (H : list (oprec (mop (mop oop)))) :
   m2reach_nk H s1 K1 -> m2reach_nk H s2 K2 -> K2 ⊆ K1 -> mmerge vo2 s1 s2 = s1 /\ mmerge vo2 s2 s1 = s1.
 Proof. exact (map2_stale_merge_nk H). Qed.
 Print Assumptions C09_map2_nk_stale_merge.
+
+(** Map<K, Orswot> WITH key removes and merges, in the fragment the known findings leave: members are added under keys and keys are removed (no nested remove: T3), and every key that some key remove names is updated at most once by each actor ([km_once]: T2 needs two updates of one actor): a duplicate op and a stale state leave the complete state unchanged - in particular a removed member stays removed whatever
+    old snapshot is merged (proofs/MapOrswotKM.v) *)
+From Crdt Require Import model.Orswot model.Map spec.System spec.OrswotSpec spec.OrswotSystem spec.MapSpec spec.MapSystem spec.MapOrswotSpec spec.MapOrswotKM proofs.MapOrswotKM proofs.MapOrswotKMCor.
+Theorem C09_mapor_km_dup_apply (H : list (oprec (mop oop))) :
+  mohist_ok_km H -> km_once H -> forall (s : cmap orswot) (K : gset nat) (i : nat) (r : oprec (mop oop)),
+  moreach_km H s K -> H !! i = Some r -> i ∈ K -> mapply orswot_valops s (op_val r) = s.
+Proof. exact (mapor_dup_apply_km H). Qed.
+Print Assumptions C09_mapor_km_dup_apply.
+
+Theorem C09_mapor_km_stale_merge (H : list (oprec (mop oop))) :
+  mohist_ok_km H -> km_once H -> forall (s1 : cmap orswot) (K1 : gset nat) (s2 : cmap orswot) (K2 : gset nat),
+  moreach_km H s1 K1 -> moreach_km H s2 K2 -> K2 ⊆ K1 ->
+  mmerge orswot_valops s1 s2 = s1 /\ mmerge orswot_valops s2 s1 = s1.
+Proof. exact (mapor_stale_merge_km H). Qed.
+Print Assumptions C09_mapor_km_stale_merge.
